@@ -469,7 +469,17 @@ def case_heavy_select():
     c = st.one_of(cond(1), cond(1), cond(0))
     e = expr(0)
     case = st.tuples(st.one_of(st.none(), st.none(), e), st.lists(st.tuples(c, e), min_size=1, max_size=3), st.one_of(st.none(), e)).map(lambda t: case_expr(*t))
-    item = st.one_of(st.tuples(case, alias).map(lambda t: with_alias(*t)), st.tuples(case, alias).map(lambda t: with_alias(*t)), e)
+    # also: CASE / parenthesised conditions as one of several call arguments, and unary signs in front of an operand
+    # (formatter properties only: the clause properties do not claim anything about unary operators)
+    fn = st.sampled_from(FUNCS)
+    call = st.one_of(st.tuples(fn, case, e).map(lambda t: func_call(t[0], [t[1], t[2]])),
+                     st.tuples(fn, e, c).map(lambda t: func_call(t[0], [t[1], W('paren', paren(t[2]))])),
+                     st.tuples(fn, e, fn, e, c).map(lambda t: func_call(t[0], [t[1], func_call(t[2], [t[3], W('paren', paren(t[4]))]), [L('num', '0')]])))
+    signed = st.one_of(st.tuples(st.sampled_from(['-', '+']), column_ref).map(lambda t: seq(L('op', t[0]), t[1])),
+                       st.tuples(st.sampled_from(['-', '+']), e).map(lambda t: seq(L('op', t[0]), W('paren', paren(t[1])))),
+                       st.tuples(column_ref, st.sampled_from(['*', '+', '/']), st.sampled_from(['-', '+']), column_ref).map(
+                           lambda t: seq(t[0], opl(t[1]), L('op', t[2]), t[3])))
+    item = st.one_of(st.tuples(case, alias).map(lambda t: with_alias(*t)), st.tuples(case, alias).map(lambda t: with_alias(*t)), e, call, call, signed)
 
     def mk(items, frm, where, order):
         out = [L('kw', 'SELECT', False, lead='SELECT')]
@@ -572,14 +582,20 @@ def respell_kw(text, code, inner):
 
 
 @st.composite
-def layout(draw, lex, comments=0, ws=True, case=True, tight=True, inner=True, comment_strategy=None):
+def layout(draw, lex, comments=0, ws=True, case=True, tight=True, inner=True, comment_strategy=None, raw=None, pool=None):
     """lex: lexeme list *with marks*.  Returns a list in which comment lexemes have been inserted, keyword lexemes
     re-spelled (meta 'canon' keeps the canonical text) and every real lexeme carries meta 'gap' (the whitespace
     written before it).  comments: per-gap probability in percent."""
     real = [l for l in lex if l[0] != 'mark']
     n = len(real)
-    raw = draw(st.binary(min_size=3 * n, max_size=3 * n))       # one primitive draw; zeros = canonical layout
-    codes = [int.from_bytes(raw[3 * j:3 * j + 3], 'little') for j in range(n)]
+    # Hypothesis biases values drawn *after* a large structure towards their simplest form, so callers that build big
+    # scripts draw the layout bytes and a pool of comments FIRST and pass them in (raw is used cyclically)
+    if raw is None:
+        raw = draw(st.binary(min_size=3 * n, max_size=3 * n))       # one primitive draw; zeros = canonical layout
+    if len(raw) < 3:
+        raw = b'\x00\x00\x00'
+    m = len(raw) // 3
+    codes = [int.from_bytes(raw[3 * (j % m):3 * (j % m) + 3], 'little') ^ (j // m) for j in range(n)]
     out = []
     prev = None
     i = 0
@@ -598,7 +614,7 @@ def layout(draw, lex, comments=0, ws=True, case=True, tight=True, inner=True, co
             text = respell_kw(text, cc, inn)
         cur = [l[0], text, l[2], meta]
         if comments and prev is not None and not meta.get('force') and ((c >> 7) & 127) >= 128 - (comments * 128) // 100:       # never split a forced-tight pair (a.b, a[1], f()
-            ctext = draw(comment_strategy or COMMENT)
+            ctext = pool[(c >> 14) % len(pool)] if pool else draw(comment_strategy or COMMENT)
             cm = ['comment', ctext, True, {}]
             if can_tight(prev, cm) and (c >> 5) & 1:
                 cm[3]['gap'] = ''
@@ -662,20 +678,28 @@ def assemble(laid, lead='', tail=''):
 SEMI = ['semi', ';', True, {}]
 
 
+def predrawn_layout(comments=0, comment_strategy=None, nbytes=900):
+    """layout material to be drawn BEFORE a big structure: raw gap/casing codes and a pool of comments"""
+    pool = st.lists(comment_strategy or COMMENT, min_size=5, max_size=5) if comments else st.just(None)
+    return st.tuples(st.binary(min_size=nbytes, max_size=nbytes), pool)
+
+
 @st.composite
 def script(draw, min_statements=1, max_statements=4, comments=10, stmt=None, last_semi=None, go=False, **lay):
     """-> laid-out lexeme list (with marks) of k statements separated by ';' lexemes (go=True: some separators are
     followed by a GO batch-separator keyword, which ends a batch just like the ';' before it ended the statement)"""
     k = draw(st.integers(min_statements, max_statements))
+    raw, pool = draw(predrawn_layout(comments, lay.get('comment_strategy')))
+    flags = draw(st.lists(st.integers(0, 5), min_size=k + 1, max_size=k + 1))
     stmts = [draw(stmt if stmt is not None else statement()) for _ in range(k)]
     lex = []
     for i, s in enumerate(stmts):
         lex.extend(s)
-        if i < k - 1 or (draw(st.booleans()) if last_semi is None else last_semi):
+        if i < k - 1 or ((flags[k] % 2 == 1) if last_semi is None else last_semi):
             lex.append(list(SEMI))
-            if go and draw(st.integers(0, 2)) == 0:
+            if go and flags[i] % 3 == 0:
                 lex.append(L('kw', 'GO', False, go=True))
-    return draw(layout(lex, comments=comments, **lay))
+    return draw(layout(lex, comments=comments, raw=raw, pool=pool, **lay))
 
 
 def rendered_script(max_statements=3, comments=10):
